@@ -201,7 +201,12 @@ func (c *Ctx) ParallelFor(n int64, f func(w *Worker, i int64)) {
 					hi = n
 				}
 				for i := lo; i < hi; i++ {
+					t0 := time.Now()
 					f(w, i)
+					if d := time.Since(t0); d > 2*time.Second {
+						fmt.Fprintf(os.Stderr, "slow case: index %d took %v\n", i, d)
+						w.Count("slow_cases(>2s)", 1)
+					}
 				}
 			}
 		}(id)
